@@ -20,8 +20,9 @@ Floats are IEEE bit patterns. Commands:
 The `proj_polyligne` requests (`poly`, `polyxy`) are answered with the SENTINEL-FAITHFUL forms of the model
 (`projPolyligneS`, `projPolyligneXYS`, sentinel `inf = 1.0 / 0.0`, the double Python reads `1e400` as): the test is
 `dist < inf` as in the code, so an input whose distances are all `inf`/NaN answers `err unbound` where Python raises
-`UnboundLocalError` (`Tie/C20.lean` `tie_proj_polyligne_exact`). The `mapOnTrack` requests (`map`, `mapt`, `map3`, `mapt3`)
-still go through the `none`-state forms (`projOnTrack`, …), equal to the former whenever a distance met is finite. -/
+`UnboundLocalError` (`Tie/C20.lean` `tie_proj_polyligne_exact`). The `mapOnTrack` requests (`map`, `mapt`, `map3`, `mapt3`,
+`mapf`) still go through the `none`-state forms (`projOnTrack`, …), equal to the former whenever a distance met is finite
+(the harness sends no `mapOnTrack` request with a non-finite / overflowing coordinate). -/
 namespace TV.Drv.C20
 open TV.Proj TV.Drv
 
